@@ -41,6 +41,11 @@ CHECKS = {
          "Programs with several independent errors in one blob, enum, file or project (the shape the property singles out), valid single- and multi-file programs and the repository's own test programs are each compiled under every seed of a 16 (quick) / 64 (thorough) element seed set - one fresh thread per execution, SipHash keys supplied through the getrandom symbol std consults - and at history positions first / after 1 / after 7 other compilations in the same thread; additionally the built sylt binary is run repeatedly under two environments (NO_COLOR, cwd, HOME). Lua bytes or the full error list (kinds, files, spans, messages, rendered text) must be identical across all executions of one input.",
          "The seed dimension is bounded controlled repetition, not exhaustive (2^128 keys); the evidence reports how many distinct iteration orders a probe map showed over the seed set. ANSI colour codes are stripped before process outputs are compared. Exhaustive only over the listed inputs.",
          "DESIGN.md §3.7, §4 C16"),
+ "C07": ("fault_enumeration",
+         "exhaustive enumeration of short token sequences, sequences in scaffold holes and all distance-1 edits of the corpus, each run on the real compiler in supervised worker processes (death or silence of a worker is attributed to a single case)",
+         "All sequences of up to 3 (quick) / 4 (thorough) tokens from an 82-token alphabet (one representative per token kind, error bytes, non-ASCII, conflict markers, multi-line string, overflowing literals) as a whole file with and without trailing newline; all sequences of up to 2 / 3 tokens in each hole of 10 valid scaffolds (top level, statement, operand, argument, blob field, case arm, type annotation, blob declaration, function header); for the 60 smallest (quick) / all ~360 (thorough) files of tests/ and std/: every single-token deletion, replacement and insertion by each of 28 critical tokens, adjacent swap, truncation before every token and at every character (std bundled for the test programs, imports resolved on disk); 62 project shapes (missing / cyclic / conflicting imports, exports.sy, std-named files, empty files, declarations inside functions; with and without std); 16 nesting ladders at depths 1..64 with a growth check. For each input: the call returns within the deadline, yields Ok or a non-empty error list, does not panic or kill the process, and every error renders (sources absent and materialised on disk).",
+         "Worker processes are supervised by progress messages; a death or stall is pinned to one case by re-running the last batch case by case (an unreproducible death is a machinery error, exit 2). After 6 process deaths/hangs the exploration stops early and says so (exhaustive=false). Nothing is claimed for longer random text or nesting deeper than 64.",
+         "DESIGN.md §4 C07"),
 }
 
 checks = []
